@@ -7,6 +7,13 @@ TRUST = ("trusted base: go/types + go/ssa (x/tools v0.50.0), goyacc v0.29.0's LA
          "interface calls that leave the module (Entry, plugins) are opaque")
 
 CHECKS = {
+    "C06": dict(
+        cat="other",
+        text=("Establishes from go/ssa that concurrent runs and compilations share no mutable state, which is the premise of the property: (1) Machine, Inst and Symbol fields and []Inst elements are stored only on fresh values inside constructors; (2) for each of the function values that can reach Inst.fn (found at every CodeFn/newInst call site, closures, bound methods and phi-merged closures included) a transitive write/escape summary shows that nothing reachable from a captured variable or bound receiver is written, handed to a mutating or opaque callee, or stored elsewhere, and no package variable is written without the lock; (3) every package-level variable of the xpath packages is read-only after init or is accessed only with mu held in the required mode (exclusive for writes, so a Mutex->RWMutex/RLock weakening is caught); (4) each generated parser allocates its state per call; (5) context constructors share only the program with the machine. Schedules themselves are not explored."),
+        ref="DESIGN.md §4 C06",
+        technique="SSA write-set/escape summaries (interprocedural, per parameter / free variable), lock-mode (lockset) analysis of package variables, who-may-store on frozen types",
+        note="Sound for static callees and in-module interface implementations; external calls are treated as mutating unless in a small pure list; Entry implementations, plugins and concurrent use of exported configuration setters are outside. " + TRUST,
+    ),
     "C05": dict(
         cat="other",
         text=("Decides the structural necessary conditions of totality and faithful failure reporting on the XPath side: instructions are only ever executed inside context.Run under a deferred recover that turns a panic into an error result; once an instruction stored an error nothing can replace it (loop exit or guarded store); every error-returning data-tree callback is tested and its error stored or raised before the value is used; accessors report the run error first; in the call cone of the five machine constructors (generated parser excluded) every index, slice, unchecked type assertion and explicit panic is discharged by a guard that must still be present or by a reviewed entry; the compile error is built with constant formats from the expression and a split of it; every lexer loop consumes a rune per iteration and leaves at EOF."),
@@ -97,7 +104,7 @@ def main():
 
 
 NA = {}
-SOURCE_COMMITS = ["e91d74a fix: reject invalid UTF-8 inside literals and QName local parts", "ad0dbf5 fix: CreateProgram no longer panics when the error position underflows", "f5b2578 fix: a submodule may have at most one organization statement", "7be1c78 fix: spell the yin-element keyword correctly", "9e6f860 fix: boolean arguments accept only true and false", "779e276 fix: integer arguments are decimal only", "b95096a fix: identifiers are ASCII as the YANG ABNF requires", "2221591 fix: NewFakeNodeByType no longer writes into the shared cardinality table", "53dc864 fix: div follows IEEE 754 for a zero denominator", "ea66e69 fix: boolean() of NaN is false", "588031e fix: round() rounds ties towards positive infinity", "362e2bb fix: string() of a number never uses exponent notation", "9ac8c0a fix: string-length() and substring() count characters, not bytes", "9cf326e fix: a run stops at the first error an instruction reports"]
+SOURCE_COMMITS = ["e91d74a fix: reject invalid UTF-8 inside literals and QName local parts", "ad0dbf5 fix: CreateProgram no longer panics when the error position underflows", "f5b2578 fix: a submodule may have at most one organization statement", "7be1c78 fix: spell the yin-element keyword correctly", "9e6f860 fix: boolean arguments accept only true and false", "779e276 fix: integer arguments are decimal only", "b95096a fix: identifiers are ASCII as the YANG ABNF requires", "2221591 fix: NewFakeNodeByType no longer writes into the shared cardinality table", "53dc864 fix: div follows IEEE 754 for a zero denominator", "ea66e69 fix: boolean() of NaN is false", "588031e fix: round() rounds ties towards positive infinity", "362e2bb fix: string() of a number never uses exponent notation", "9ac8c0a fix: string-length() and substring() count characters, not bytes", "9cf326e fix: a run stops at the first error an instruction reports", "fb4c9e7 fix: the tested-function table is accessed under the function-table lock"]
 
 if __name__ == "__main__":
     main()
